@@ -92,6 +92,16 @@ func c11Check(c *ev.Collector, k c11Case) {
 			return e
 		}
 		switch k.Outcome {
+		case "errsend":
+			// the first Send is refused by the codec (nothing of it reaches the wire); the handler
+			// gives up with that error plus its own metadata
+			err := s.Send(&BV{Value: []byte("FAIL-MARSHAL")})
+			if err == nil {
+				return errors.New("the marker message was not refused")
+			}
+			e := connect.NewError(connect.CodeInternal, err)
+			mergeInto(e.Meta(), k.ErrM)
+			return e
 		case "ok1":
 			return s.Send(&BV{Value: []byte{1}})
 		case "ok0":
@@ -104,7 +114,7 @@ func c11Check(c *ev.Collector, k c11Case) {
 			}
 			return fail()
 		}
-	}, k.Cfg.HandlerOptions()...)
+	}, append(k.Cfg.HandlerOptions(), connect.WithCodec(failingCodec{"proto"}))...)
 	tr := &memhttp.Transport{Handler: h, Proto: k.Cfg.HTTP, SyncCloseReq: true}
 	var copts []connect.ClientOption
 	if k.ReadMax > 0 {
@@ -131,7 +141,7 @@ func c11Check(c *ev.Collector, k c11Case) {
 		bad = true
 		viol("handler-sees-request-headers", "missing", "%s (handler saw %v)", msg, handlerSaw)
 	}
-	failed := k.Outcome == "err0" || k.Outcome == "err1"
+	failed := k.Outcome == "err0" || k.Outcome == "err1" || k.Outcome == "errsend"
 	unaryResp := !k.Cfg.Kind.ServerStreams()
 	switch {
 	case !failed && res.Err != nil:
@@ -197,6 +207,9 @@ func c11Cases(thorough bool) []c11Case {
 				outcomes := []string{"ok1", "err0"}
 				if kind.ServerStreams() {
 					outcomes = []string{"ok1", "ok0", "err0", "err1"}
+					if !js {
+						outcomes = append(outcomes, "errsend")
+					}
 				}
 				for _, oc := range outcomes {
 					if thorough {
